@@ -229,6 +229,8 @@ def assemble_index(ctx, q, S):
                     v_ = sym._deref_arg(engine, st, v_)
                 if isinstance(v_, sym.StrV):
                     return z3.BitVecVal(len(v_.s.encode()), 64)
+                if isinstance(v_, sym.Sym):
+                    return z3.BitVec(v_.name + "#len", 64)
                 raise mir.Unsupported("len of %r" % (v_,))
             eng = S.engine([(r"^<(dr::)?(constructs::)?Operand as Assemble>::assemble_into$", m_operand_assemble),
                             (r"^(std::string::)?String::len$|^core::str::<impl str>::len$", m_str_len),
@@ -242,8 +244,15 @@ def assemble_index(ctx, q, S):
             try:
                 res = eng.run(fn, [sym.Ref(("h", "inst"), ()), sym.Ref(("h", "result"), (), True)], mem=mem)
             except mir.Unsupported as ex:
+                if nops == "2":
+                    # operands of unknown kind make per-kind code (e.g. a precomputed word count) fork inside an iterator
+                    # adapter; the shapes with operands of KNOWN kinds below decide the obligation
+                    note = "assemble_into with two operands of unknown kind is not encodable (%s); decided on operand lists of known kinds only" % str(ex)[:160]
+                    if note not in ctx.bounds:
+                        ctx.bounds.append(note)
+                    continue
                 ctx.ob("assemble/encodable", None, str(ex)[:300])
-                return
+                continue
             ctx.functions.update(eng.stats.functions)
             for r in res:
                 tag = "assemble/instruction/prelen=%d,operands=%s" % (prelen, nops)
